@@ -125,6 +125,16 @@ def main(tier, seed):
             if key in seen:
                 continue
             seen.add(key)
+            prog = (v.get('cex') or {}).get('program')
+            if prog:
+                r = oracle.ask('hover', json.dumps({'text': prog, 'offsets': list(range(len(prog)))}))
+                if not isinstance(r, dict) or 'hover' not in r:
+                    chk.violation('inference-side-tables', 'bounded', '%s; public API: hover at every offset of %r -> %s' % (v['why'][0][:400], prog, str(r)[:200]), {'program': prog}, confirmed=True)
+                    if 'died' in str(r):
+                        oracle.close(); oracle = native.Oracle(native.build('oracle-ide'))
+                else:
+                    chk.inconclusive.append('inference kernel: %s -- but hover answers at every offset of %r' % (v['why'][0][:300], prog))
+                continue
             if crashes:
                 chk.violation('unifier-termination', 'bounded', '%s; public API: %s' % (v['why'][0][:400], crashes[0][:300]), v['cex'], confirmed=True)
             else:
